@@ -105,7 +105,8 @@ MinimalS(bs) == WellFormed(bs) /\ LastNeededS(bs)
 (*            encoded number)                                               *)
 (* r.out      encoders: [ok |-> TRUE, bytes |-> Seq(Byte)]                   *)
 (*            decoders: [ok |-> TRUE, z |-> ZInt, used |-> bytes consumed]  *)
-(*            any:      [ok |-> FALSE, exc |-> class name]                  *)
+(*            any:      [ok |-> FALSE, exc |-> class name] (encoders also   *)
+(*                      raised |-> the function itself raised an exception) *)
 (* r.rt       encoders: outcome of the matching decoder on r.out.bytes      *)
 ResBytes(bs) == [ok |-> TRUE, bytes |-> bs]
 ResDec(z, n) == [ok |-> TRUE, z |-> z, used |-> n]
@@ -113,7 +114,7 @@ ResDec(z, n) == [ok |-> TRUE, z |-> z, used |-> n]
 \* the encoder returns the canonical encoding ...
 EncodeOk(r) ==
     CASE r.f = "signed_encode"   -> r.out = ResBytes(EncS(r.v))
-      [] r.f = "unsigned_encode" -> IF r.v.neg THEN r.out.ok = FALSE      \* rejects negatives
+      [] r.f = "unsigned_encode" -> IF r.v.neg THEN ~r.out.ok /\ r.out.raised   \* rejects negatives
                                     ELSE r.out = ResBytes(EncU(r.v))
 \* ... and the decoder returns the original integer from it
 RoundTripOk(r) ==
